@@ -6,7 +6,10 @@ Three kinds of cases:
   layout  : THE PROPERTY on the real code (oracle): one logical frame under two block layouts, one
             public single-frame operation -> equal canonical results (values, labels, per-column
             dtypes, exception class)
-  coher   : shape vs labels; values[i,j] == iloc[i,j] == iter_array/iter_series/iter_element/to_pairs
+  coher   : shape vs labels; values[i,j] == iloc[i,j] == iter_array/iter_series/iter_element/to_pairs;
+            the same blocks accumulated by a history of from_blocks / append / extend calls (some of them
+            raising): the incrementally kept caches _shape / _index / _dtypes / _row_dtype against the Lean
+            growth model (tb.caches) and against a recomputation from the final blocks
 """
 from __future__ import annotations
 
@@ -23,6 +26,9 @@ THEOREMS = [
     'SF.C03.cols_wf', 'SF.C03.fromBlocks_sound', 'SF.C03.index_spec', 'SF.C03.contiguous_pairs_expand',
     'SF.C03.contiguous_pairs_total', 'SF.C03.extract_refines', 'SF.C03.layout_unobservable_extract',
     'SF.C03.consolidate_cols', 'SF.C03.append_cols', 'SF.C03.extend_cols',
+    'SF.C03.caches_ofBlocks_coherent', 'SF.C03.caches_append_coherent', 'SF.C03.caches_history_coherent',
+    'SF.C03.caches_history_row_dtype', 'SF.C03.caches_grown_from_empty', 'SF.C03.row_dtype_history_differs',
+    'SF.C03.row_dtype_history_agrees_of_preserving',
 ]
 PARTIAL = []
 CORR_ONLY = ['every single-frame public operation of harness/sfv/ops.py not mirrored in Blocks.lean is covered by the two-layout oracle only']
@@ -89,10 +95,122 @@ def cases(ctx):
         # every third case draws from one family of dtypes (same kind, different widths): caches keyed on the kind alone show up
         fam = rng.choice([['int64', 'int8'], ['float64', 'float32'], ['str'], ['datetime64[D]', 'datetime64[s]'], ['uint8', 'uint64', 'int8']]) if i % 3 == 0 else gen.DTYPES_ALL
         spec = gen.rand_frame_spec(rng, 4, 5, dtypes=fam, index_kinds=('auto', 'int', 'str', 'ih'), column_kinds=('auto', 'str', 'ih'))
-        yield {'k': 'coher', 'spec': spec, 'seed': i}
+        yield {'k': 'coher', 'spec': spec, 'seed': i, 'hist': rand_history(rng, len(spec['layout']))}
+
+
+def rand_history(rng, nb):
+    """A growth history over blocks 0..nb-1 (in order): how the first k0 are constructed, then a list of calls:
+    ['a', i] append; ['e', [i..]] extend(iterable); ['t', [i..]] extend(TypeBlocks); noise that must change nothing:
+    ['z'] append a zero-width 2-D array, ['bad'] append an array one row too long (raises), ['tbad'] extend with an
+    empty TypeBlocks of another row count (raises unless self has no rows); ['ebad', i] extend((block i, too-long
+    array)): raises AFTER block i was appended."""
+    k0 = min(nb, rng.choice([0, 1, 1, 2, 3, nb]))
+    init = 'zero' if k0 == 0 else rng.choice(['single', 'iter']) if k0 == 1 else 'iter'
+    calls = []
+    i = k0
+    while i < nb:
+        r = rng.random()
+        if r < 0.12:
+            calls.append([rng.choice(['z', 'bad', 'tbad'])])
+            continue
+        if r < 0.2:
+            calls.append(['ebad', i])
+            i += 1
+            continue
+        kind = rng.choice(['a', 'a', 'e', 't'])
+        if kind == 'a':
+            calls.append(['a', i])
+            i += 1
+        else:
+            w = min(nb - i, rng.randint(1, 3))
+            calls.append([kind, list(range(i, i + w))])
+            i += w
+    if rng.random() < 0.3:
+        calls.append([rng.choice(['z', 'bad', 'tbad'])])
+    return {'k0': k0, 'init': init, 'calls': calls}
+
+
+def default_history(c, nb):
+    """the accumulation of cases recorded before histories existed: first block, then one call per block"""
+    ext = c.get('seed', 0) % 2
+    return {'k0': min(1, nb), 'init': 'single' if nb else 'zero',
+            'calls': [['e', [i]] if ext else ['a', i] for i in range(1, nb)]}
+
+
+def block_wire(b, it):
+    dt = dtype_tok(b.dtype)
+    if b.ndim == 1:
+        return f'(d1 {dt} ' + ' '.join(it.atom(t) for t in array_toks(b)) + ')'
+    cols = ['(' + ' '.join(it.atom(t) for t in array_toks(b[:, j])) + ')' for j in range(b.shape[1])]
+    return f'(d2 {dt} ' + ' '.join(cols) + ')'
+
+
+def resolve_table(dts):
+    """answers of the real util.resolve_dtype for every pair the left fold over `dts` can meet, as dtype tokens;
+    None if two distinct dtypes share a token (the token model cannot tell them apart)"""
+    from static_frame.core.util import resolve_dtype
+    by_tok = {}
+    for d in dts:
+        if by_tok.setdefault(dtype_tok(d), d) != d:
+            return None
+    table = {}
+    seen = list(by_tok.values())
+    todo = list(seen)
+    while todo:
+        a = todo.pop()
+        for b in dts:
+            r = resolve_dtype(a, b)
+            if by_tok.setdefault(dtype_tok(r), r) != r:
+                return None
+            table[(dtype_tok(a), dtype_tok(b))] = dtype_tok(r)
+            if r not in seen:
+                seen.append(r)
+                todo.append(r)
+    return table
+
+
+def history_wire(c):
+    """driver line of the growth history of a coher case (None when it cannot be expressed)"""
+    spec = c['spec']
+    blocks = gen.build_blocks(spec)
+    n = spec['rows']
+    h = c.get('hist') or default_history(c, len(blocks))
+    it = Interner()
+    bw = lambda i: block_wire(blocks[i], it)
+    table = resolve_table([blocks[i].dtype for i in range(h['k0'])])
+    if table is None:
+        return None
+    too_long = '(d1 i8 ' + ' '.join(it.atom(f'i:{v}') for v in range(n + 1)) + ')'
+    ops = []
+    for call in h['calls']:
+        k = call[0]
+        if k == 'a':
+            ops.append(f'(append {bw(call[1])})')
+        elif k == 'e':
+            ops.append('(extend ' + ' '.join(bw(i) for i in call[1]) + ')')
+        elif k == 't':
+            ops.append(f'(extendtb {n} ' + ' '.join(bw(i) for i in call[1]) + ')')
+        elif k == 'z':
+            ops.append('(append (d2 f8))')
+        elif k == 'bad':
+            ops.append(f'(append {too_long})')
+        elif k == 'tbad':
+            ops.append(f'(extendtb {n + 1})')
+        elif k == 'ebad':
+            ops.append(f'(extend {bw(call[1])} {too_long})')
+        else:
+            raise ValueError(k)
+    ref = n if h['init'] == 'zero' else 'N'
+    init = ' '.join(bw(i) for i in range(h['k0']))
+    tab = ' '.join(f'({a} {b} {r})' for (a, b), r in sorted(table.items()))
+    return f'tb.caches {ref} ({init}) ({tab}) ({" ".join(ops)})'
 
 
 def model_lines(c):
+    if c['k'] == 'coher':
+        w = history_wire(c)
+        c['_clash'] = w is None
+        return [w] if w else []
     if c['k'] != 'tb':
         return []
     import static_frame as sf
@@ -133,7 +251,7 @@ def evaluate(ctx, c, outs):
         return eval_tb(ctx, c, outs)
     if c['k'] == 'layout':
         return eval_layout(ctx, c)
-    return eval_coher(ctx, c)
+    return eval_coher(ctx, c, outs)
 
 
 def eval_tb(ctx, c, outs):
@@ -276,30 +394,101 @@ def coherence_of(f, spec):
     return what
 
 
-def eval_coher(ctx, c):
+def grow(c, blocks):
+    """run the growth history of a coher case on the real TypeBlocks; returns (tb, outcome per call)"""
+    import static_frame as sf
+    n = c['spec']['rows']
+    h = c.get('hist') or default_history(c, len(blocks))
+    if h['init'] == 'zero':
+        tb = sf.TypeBlocks.from_zero_size_shape((n, 0))
+    elif h['init'] == 'single':
+        tb = sf.TypeBlocks.from_blocks(blocks[0])
+    else:
+        tb = sf.TypeBlocks.from_blocks(blocks[i] for i in range(h['k0']))
+    too_long = np.arange(n + 1, dtype=np.int64)
+    outcomes = []
+    for call in h['calls']:
+        k = call[0]
+        try:
+            if k == 'a':
+                tb.append(blocks[call[1]])
+            elif k == 'e':
+                tb.extend(blocks[i] for i in call[1])
+            elif k == 't':
+                tb.extend(sf.TypeBlocks.from_blocks(blocks[i] for i in call[1]))
+            elif k == 'z':
+                tb.append(np.empty((n, 0)))
+            elif k == 'bad':
+                tb.append(too_long)
+            elif k == 'tbad':
+                tb.extend(sf.TypeBlocks.from_zero_size_shape((n + 1, 0)))
+            elif k == 'ebad':
+                tb.extend((blocks[call[1]], too_long))
+            else:
+                raise ValueError(k)
+            outcomes.append('ok')
+        except Exception as ex:
+            outcomes.append(err_cat(ex))
+    return tb, outcomes
+
+
+def caches_view(tb, outcomes):
+    """the caches of a real TypeBlocks in the form of the driver's answer to tb.caches"""
+    rd = 'N' if tb._row_dtype is None else dtype_tok(tb._row_dtype)
+    return ('ok ((' + ' '.join(str(int(x)) for x in tb._shape) + ') ('
+            + ' '.join(f'({int(b)} {int(i)})' for b, i in tb._index) + ') ('
+            + ' '.join(dtype_tok(d) for d in tb._dtypes) + ') ' + rd + ' (' + ' '.join(outcomes) + '))')
+
+
+def eval_coher(ctx, c, outs=()):
     import static_frame as sf
     fails = []
+    clash = c.pop('_clash', False)
     spec = c['spec']
     f = gen.build_frame(spec)
     ctx.count('coherence_cases')
     what = coherence_of(f, spec)
     if what:
         fails.append(Failure('oracle', f'coherence: {what}', c))
-    # the same blocks accumulated one by one in a growing TypeBlocks (what FrameGO does): the caches that are
-    # maintained incrementally (shape, index, dtypes, row dtype) must describe the same frame
+    # the same blocks accumulated by a history of growth calls (what FrameGO does): the caches that are maintained
+    # incrementally (shape, index, dtypes, row dtype) must describe the same frame
     blocks = gen.build_blocks(spec)
+    h = c.get('hist') or default_history(c, len(blocks))
+    tb, outcomes = grow(c, blocks)
+    ctx.count('caches_histories')
+    ctx.count(f'caches_init_{h["init"]}')
+    for call in h['calls']:
+        ctx.count(f'caches_call_{call[0]}')
+    for o in set(outcomes) - {'ok'}:
+        ctx.count(f'caches_call_raises_{o}')
+    # Lean-independent reference: a recomputation from the final block list (from_blocks) gives the same shape /
+    # directory / dtypes.  The ROW dtype is allowed to differ: append keeps `object` where from_blocks resolves
+    # (int64 + float64 -> float64) - history dependence proved as SF.C03.row_dtype_history_differs, counted here.
+    ref = sf.TypeBlocks.from_blocks(tb._blocks, shape_reference=tb._shape)
+    if (tuple(tb._shape), [tuple(p) for p in tb._index], list(tb._dtypes)) != (tuple(ref._shape), [tuple(p) for p in ref._index], list(ref._dtypes)):
+        fails.append(Failure('oracle', f'caches after history {h} differ from a recomputation: {caches_view(tb, outcomes)} vs {caches_view(ref, outcomes)}', c))
+    if len(tb._blocks) != sum(1 for b in blocks if b.ndim == 1 or b.shape[1]):
+        fails.append(Failure('oracle', f'history {h}: {len(tb._blocks)} blocks stored', c))
+    if tb._row_dtype != ref._row_dtype:
+        ctx.count('caches_row_dtype_history_dependent')
+        ctx.count(f'caches_row_dtype_grown_{dtype_tok(tb._row_dtype)}_vs_at_once_{dtype_tok(ref._row_dtype)}')
+    if tb._row_dtype is not None and len({b.dtype for b in tb._blocks}) == 1:
+        ctx.count('caches_row_dtype_uniform')
+        if tb._row_dtype != tb._blocks[0].dtype:
+            fails.append(Failure('oracle', f'history {h}: all blocks have dtype {tb._blocks[0].dtype}, row dtype {tb._row_dtype}', c))
+    if outs:
+        real = caches_view(tb, outcomes)
+        ctx.count('caches_model_compared')
+        if outs[0] != real:
+            fails.append(Failure('corr', f'caches after history {h} layout={spec["layout"]}: model {outs[0][:200]} vs real {real[:200]}', c))
+    elif clash:
+        ctx.count('caches_model_skipped_token_clash')
     if blocks and spec['rows']:
-        tb = sf.TypeBlocks.from_blocks(blocks[0])
-        for b in blocks[1:]:
-            if c.get('seed', 0) % 2:
-                tb.extend((b,))
-            else:
-                tb.append(b)
         g = sf.Frame(tb, index=f.index, columns=f.columns, own_data=True)
         ctx.count('coherence_grown_cases')
         what = coherence_of(g, spec)
         if what:
-            fails.append(Failure('oracle', f'coherence of blocks accumulated by {"extend" if c.get("seed", 0) % 2 else "append"}: {what}', c))
+            fails.append(Failure('oracle', f'coherence of blocks accumulated by history {h}: {what}', c))
     return fails
 
 
